@@ -39,7 +39,7 @@ impl Property for C39 {
         Meta {
             id: "C39",
             level: "exploration",
-            rule: "one evaluation = a two-stage pipeline on the real SDK: stage 1 signs asset A (any of 11 formats); a simulated disk then leaves A intact, applies one seeded stored-byte fault (flip / truncate / insert / delete / append, inside or outside the manifest), or A is unsigned; stage 2 reads A alone (reference) and adds A as parentOf / componentOf / inputTo ingredient of B through a SimStream with seeded benign chunking, signs B and reads B. Oracle: when A's store bytes are untouched, every manifest box of A appears byte-for-byte among the manifest boxes of B's store (simulator's own JUMBF walker); the ingredient's recorded failure-code multiset equals that of the reference read; an unsigned A records no manifest and no failure. Non-trivial = pipeline completed; distinct = (format, relationship, fault)",
+            rule: "one evaluation = a two-stage pipeline on the real SDK: stage 1 signs asset A (any of 11 formats); a simulated disk then leaves A intact, applies one seeded stored-byte fault (flip / truncate / insert / delete / append, inside or outside the manifest), or A is unsigned; stage 2 reads A alone (reference) and adds A as parentOf / componentOf / inputTo ingredient of B through a SimStream with seeded benign chunking, signs B and reads B. Oracle: when A's store bytes are untouched, every manifest box of A appears byte-for-byte among the manifest boxes of B's store (simulator's own JUMBF walker); the ingredient's recorded failure-code multiset equals that of the reference read; an unsigned A records no manifest and no failure. Each run ends with ingredient sets whose stores overlap - the same asset twice, an asset and one that already carries it, an asset and a tampered copy of it under the same manifest label, in both orders - with the same two clauses per ingredient and the count of reported ingredients. Non-trivial = pipeline completed; distinct = (format, relationship, fault)",
             assumptions: &[
                 "label conflicts (same manifest label, different content already in B) are not generated",
                 "when the reference read of A fails outright nothing is demanded of the ingredient record",
@@ -215,6 +215,116 @@ impl Property for C39 {
                                 } else {
                                     out.probe("manifest-carried-byte-identical");
                                 }
+                            }
+                        }
+                    }
+                }
+            }
+        }
+        // several ingredients whose stores overlap: the same asset twice, an asset and another one
+        // that already carries it as an ingredient, an asset and a tampered copy of it (same
+        // manifest label, different bytes: the merge has to relabel one of them)
+        {
+            let c_signed = sdk::guarded(|| -> Result<Vec<u8>, String> {
+                let mut b = Builder::from_shared_context(&ctx).with_definition(sdk::simple_definition("C")).map_err(|e| err_kind(&e))?;
+                b.add_ingredient_from_stream(json!({"title": "a-in-c", "relationship": "componentOf"}).to_string(), fmt.mime(), &mut std::io::Cursor::new(a_signed.clone())).map_err(|e| err_kind(&e))?;
+                let mut d = std::io::Cursor::new(Vec::new());
+                b.sign(sdk::make_signer("ed25519").as_ref(), fmt.mime(), &mut std::io::Cursor::new(b_asset.clone()), &mut d).map_err(|e| err_kind(&e))?;
+                Ok(d.into_inner())
+            }).ok().and_then(|r| r.ok());
+            // tampered copy: one letter of the text in A's org.sim.note assertion (still decodable)
+            let a_tampered = store_at.and_then(|at| {
+                // CBOR: text(4) "note", text(1) "A"
+                let q = jumbf::find_sub(&a_store, b"\x64note\x61A")? + 6;
+                let p = at + q - 8;
+                let mut m = a_signed.clone();
+                *m.get_mut(p)? ^= 0x03;
+                Some(m)
+            });
+            let mut combos: Vec<(&str, Vec<(Vec<u8>, bool)>)> = vec![("same-twice", vec![(a_signed.clone(), true), (a_signed.clone(), true)])];
+            if let Some(c) = &c_signed {
+                combos.push(("asset-and-its-container", vec![(a_signed.clone(), true), (c.clone(), true)]));
+                combos.push(("container-then-asset", vec![(c.clone(), true), (a_signed.clone(), true)]));
+            }
+            if let Some(t) = &a_tampered {
+                combos.push(("asset-and-tampered-copy", vec![(a_signed.clone(), true), (t.clone(), false)]));
+                combos.push(("tampered-copy-then-asset", vec![(t.clone(), false), (a_signed.clone(), true)]));
+            }
+            for (ci, (name, sources)) in combos.iter().enumerate() {
+                let sub = 1000 + ci as u64;
+                if !rc.want_sub(sub) {
+                    continue;
+                }
+                rc.mark(sub);
+                out.evals += 1;
+                out.fault("overlapping_ingredient_stores");
+                out.keys.push(hash_str(&format!("{}|multi|{name}", fmt.name())));
+                let tag = format!("{}:{name}", fmt.name());
+                let refs: Vec<Result<crate::report::Report, String>> = sources.iter().map(|(b, _)| sdk::read_plain(&ctx, fmt.mime(), b)).collect();
+                let r = sdk::guarded(|| -> Result<Vec<u8>, String> {
+                    let mut b = Builder::from_shared_context(&ctx).with_definition(sdk::simple_definition("B")).map_err(|e| err_kind(&e))?;
+                    for (i, (bytes, _)) in sources.iter().enumerate() {
+                        b.add_ingredient_from_stream(json!({"title": format!("ing{i}"), "relationship": "componentOf"}).to_string(), fmt.mime(), &mut std::io::Cursor::new(bytes.clone()))
+                            .map_err(|e| format!("add{i}:{}", err_kind(&e)))?;
+                    }
+                    let mut d = std::io::Cursor::new(Vec::new());
+                    b.sign(sdk::make_signer("ed25519").as_ref(), fmt.mime(), &mut std::io::Cursor::new(b_asset.clone()), &mut d).map_err(|e| format!("signB:{}", err_kind(&e)))?;
+                    Ok(d.into_inner())
+                });
+                let b_signed = match r {
+                    Err(p) => {
+                        out.violate(sub, &format!("panic:{}", p.split('|').next().unwrap_or("?")), "G1 no panic", json!({"scenario": tag, "panic": p}));
+                        continue;
+                    }
+                    Ok(Err(e)) => {
+                        out.probe(&format!("multi-refused:{name}:{e}"));
+                        continue;
+                    }
+                    Ok(Ok(b)) => b,
+                };
+                let Ok(b_rep) = sdk::read_plain(&ctx, fmt.mime(), &b_signed) else {
+                    out.probe(&format!("multi-read-B-failed:{name}"));
+                    continue;
+                };
+                let ings: Vec<Value> = b_rep.active_manifest().and_then(|m| m.get("ingredients")).and_then(|i| i.as_array()).cloned().unwrap_or_default();
+                if ings.len() != sources.len() {
+                    out.violate(sub, &format!("ingredient-count-differs:{name}"), "C39 every ingredient added is recorded", json!({"scenario": tag, "added": sources.len(), "reported": ings.len()}));
+                    continue;
+                }
+                for (i, rf) in refs.iter().enumerate() {
+                    let Ok(a_rep) = rf else { continue };
+                    let title = format!("ing{i}");
+                    let Some(ing) = ings.iter().find(|x| x.get("title").and_then(|t| t.as_str()) == Some(&title)) else {
+                        out.violate(sub, &format!("ingredient-missing-in-report:{name}"), "C39 the ingredient is recorded", json!({"scenario": tag, "title": title}));
+                        continue;
+                    };
+                    let ing_failures = ing.get("validation_results").and_then(|v| v.get("activeManifest")).map(|v| codes_of(v, "failure")).unwrap_or_default();
+                    let ref_failures = a_rep.json.get("validation_results").and_then(|v| v.get("activeManifest")).map(|v| codes_of(v, "failure")).unwrap_or_default();
+                    let strip = |v: &Vec<String>| v.iter().map(|c| c.split('|').next().unwrap_or("").to_string()).collect::<std::collections::BTreeSet<_>>();
+                    if strip(&ing_failures) != strip(&ref_failures) {
+                        out.violate(sub, &format!("ingredient-failures-differ:{name}:ingredient{i}"), "C39 recorded failure codes = those of reading the ingredient on its own",
+                            json!({"scenario": tag, "ingredient": i, "standalone_failures": ref_failures, "recorded_failures": ing_failures}));
+                    } else {
+                        out.probe("multi:failures-match");
+                    }
+                }
+                // every manifest of an untouched source is in B's store byte for byte
+                let b_store = c2pa::jumbf_io::load_jumbf_from_memory(fmt.mime(), &b_signed).unwrap_or_default();
+                let b_top = jumbf::parse(&b_store);
+                let b_boxes: Vec<&[u8]> = b_top.first().map(|t| t.children.iter().map(|c| &b_store[c.start..c.end]).collect()).unwrap_or_default();
+                for (i, (bytes, untouched)) in sources.iter().enumerate() {
+                    if !*untouched {
+                        continue;
+                    }
+                    let st = c2pa::jumbf_io::load_jumbf_from_memory(fmt.mime(), bytes).unwrap_or_default();
+                    let top = jumbf::parse(&st);
+                    if let Some(t) = top.first() {
+                        for m in t.children.iter().filter(|c| &c.typ == b"jumb") {
+                            if !b_boxes.iter().any(|b| *b == &st[m.start..m.end]) {
+                                out.violate(sub, &format!("ingredient-manifest-not-carried-unchanged:{name}"), "C39 the parent's store contains the ingredient's manifests unchanged",
+                                    json!({"scenario": tag, "ingredient": i, "manifest": m.label, "b_manifests": b_top.first().map(|t| t.children.iter().map(|c| c.label.clone()).collect::<Vec<_>>())}));
+                            } else {
+                                out.probe("multi:manifest-carried-byte-identical");
                             }
                         }
                     }
